@@ -256,6 +256,35 @@ package core
 //@ func BlockChain.GetHeaderByNumber
 //@   keeps big
 
+// ---- block validation (C01) ------------------------------------------------------------------------
+// A block passes ValidateState exactly when every post-execution commitment of its header equals
+// the value recomputed from the execution results: gas used, log bloom, receipt root, state root.
+//@ macro eip158at(v, block) = v.config.EIP158Block != nil && block.header.Number != nil && big(v.config.EIP158Block) <= big(block.header.Number)
+//@ func BlockValidator.ValidateState
+//@   requires v != nil && v.config != nil && block != nil && block.header != nil && block.header.Number != nil && statedb != nil
+//@   ensures[C01] @gas result == nil ==> old(block.header.GasUsed) == usedGas
+//@   ensures[C01] @bloom result == nil ==> old(block.header.Bloom) == createbloomf(receipts)
+//@   ensures[C01] @receipts result == nil ==> old(block.header.ReceiptHash) == derivesha_receipts(receipts)
+//@   ensures[C01] @root result == nil ==> old(block.header.Root) == stateroot(statedb, old(eip158at(v, block)))
+//@   ensures[C01] @complete old(block.header.GasUsed) == usedGas && old(block.header.Bloom) == createbloomf(receipts) && old(block.header.ReceiptHash) == derivesha_receipts(receipts)
+//@     && old(block.header.Root) == stateroot(statedb, old(eip158at(v, block))) ==> result == nil
+
+// Trusted observers of the chain database used by ValidateBody (they read the database and fill
+// caches; nothing a contract mentions is written).
+//@ func BlockChain.HasBlockAndState
+//@   trusted
+//@   assigns nothing
+//@ func BlockChain.HasBlock
+//@   trusted
+//@   assigns nothing
+
+// A block passes ValidateBody only if its transaction root and uncle hash equal the values
+// recomputed from its body (and the engine accepted the uncles, and the parent is known).
+//@ func BlockValidator.ValidateBody
+//@   requires v != nil && v.bc != nil && block != nil && block.header != nil
+//@   ensures[C01] @txroot result == nil ==> old(block.header.TxHash) == derivesha_txs(old(block.transactions))
+//@   ensures[C01] @unclehash result == nil ==> old(block.header.UncleHash) == unclehashf(blockuncles(block))
+
 // ---- header-only import (C02, C03) ----------------------------------------------------------------
 // Same fork choice and number-index maintenance as for full blocks, on HeaderChain.WriteHeader.
 // tdknown[h]: a total difficulty is recorded for h. Trusted observers/instrumentation of the
